@@ -374,8 +374,12 @@ func genRouterCase(r *Rng) (int, int, []routerStep) {
 		if r.P(10) {
 			f.Limit = ptr(int64(r.Range(0, 2)))
 		}
-		if r.P(15) {
-			f.Tags = map[string][]string{"#t": {pick(r, []string{"x", "y"})}}
+		if r.P(25) {
+			// tag conditions (keys are the bare tag names): on t and / or p, values incl. the empty one
+			f.Tags = map[string][]string{pick(r, []string{"t", "p"}): {pick(r, []string{"x", "y", ""})}}
+			if r.P(25) {
+				f.Tags[pick(r, []string{"t", "p"})] = []string{pick(r, []string{"x", "y", "z"}), pick(r, []string{"x", ""})}
+			}
 		}
 		return f
 	}
@@ -391,8 +395,17 @@ func genRouterCase(r *Rng) (int, int, []routerStep) {
 	mkEvent := func() *mocrelay.Event {
 		nev++
 		tags := []mocrelay.Tag{}
-		if r.P(40) {
-			tags = append(tags, mocrelay.Tag{"t", pick(r, []string{"x", "y", "z"})})
+		for k := pick(r, []int{0, 0, 1, 1, 2, 3}); k > 0; k-- {
+			// tags with a value, without one (value ""), and with extra elements, in any order
+			name := pick(r, []string{"t", "p", "t", "p", "e"})
+			switch r.Intn(5) {
+			case 0:
+				tags = append(tags, mocrelay.Tag{name})
+			case 1:
+				tags = append(tags, mocrelay.Tag{name, pick(r, []string{"x", "y", "z"}), "extra"})
+			default:
+				tags = append(tags, mocrelay.Tag{name, pick(r, []string{"x", "y", "z", ""})})
+			}
 		}
 		return &mocrelay.Event{ID: fmt.Sprintf("e7%062d", nev+1000*r.Intn(1000)), Pubkey: pick(r, authors), CreatedAt: int64(r.Range(1, 50)), Kind: int64(r.Range(1, 3)),
 			Tags: tags, Content: "x", Sig: ""}
